@@ -221,7 +221,7 @@ def _after_nonempty_guard(fn, stmt, held):
 
 
 # --------------------------------------------------------------------------- patterns
-def _patterns(repo, rep):
+def _patterns(repo, rep, rule='C02.b', only=None):
     import re
     try:
         from re import _parser as sre_parse
@@ -236,21 +236,25 @@ def _patterns(repo, rep):
             if isinstance(v, ast.Call) and call_name(v) == 're.compile' and v.args and isinstance(v.args[0], ast.Constant):
                 if not (('PATTERN' in name and ('WHITESPACE' in name or 'NONWORD' in name)) or 'split_pattern' in name):
                     continue
+                if only is not None and not only(name):
+                    continue
                 pat = v.args[0].value
                 n += 1
                 try:
                     p = sre_parse.parse(pat if isinstance(pat, str) else pat.decode('latin-1'))
                 except Exception as e:
-                    rep.fail('C02.b', 'pattern:%s' % name, '%s:%d' % (mod.relpath, v.lineno), 'pattern does not parse: %s' % e)
+                    rep.fail(rule, 'pattern:%s' % name, '%s:%d' % (mod.relpath, v.lineno), 'pattern does not parse: %s' % e)
                     continue
                 items = list(p)
                 ok = len(items) == 1 and str(items[0][0]) == 'SUBPATTERN' and items[0][1][0] == 1
                 lo = p.getwidth()[0]
-                rep.check(ok and lo >= 1, 'C02.b', 'pattern:%s:one-capturing-group' % name, '%s:%d' % (mod.relpath, v.lineno),
+                rep.check(ok and lo >= 1, rule, 'pattern:%s:one-capturing-group' % name, '%s:%d' % (mod.relpath, v.lineno),
                           'exactly one capturing group around a never-empty expression',
                           'split pattern %s = %r is not a single capturing group around the whole (non-empty) expression: '
                           'pattern.split(s) would drop the separators (or split at every position)' % (name, pat), nontrivial=True)
-    rep.floor('C02.b:patterns', n, 5)
+    if only is None:
+        rep.floor('C02.b:patterns', n, 5)
+    return n
 
 
 # --------------------------------------------------------------------------- C02.e
